@@ -125,10 +125,21 @@ class GenerateWasmVisitor(Visitor.DefaultVisitor):
     def GetContext(self):
         return self.__ctx
 
+    def v_Instruction(self, instruction: LinearIR.Instruction, ctx: Context):
+        raise RuntimeError(
+            f"Unsupported instruction for WebAssembly: {instruction.OpCode}"
+        )
+
     def v_VariableAccessInstruction(
         self, vai: LinearIR.VariableAccessInstruction, ctx: Context
     ):
         assert ctx.Code
+        if vai.Store is not None or (
+            vai.Scope != LinearIR.VariableAccessScope.FUNCTION_ARGUMENT
+        ):
+            raise RuntimeError(
+                "Only loads of function arguments are supported for WebAssembly"
+            )
         if vai.Scope == LinearIR.VariableAccessScope.FUNCTION_ARGUMENT:
             index = vai.Variable
             ctx.Code.AddInstruction(
